@@ -475,6 +475,18 @@ func checksTypedNil(fn *ssa.Function) bool {
 			if cal := c.Common().StaticCallee(); cal != nil && cal.Name() == "IsNil" {
 				return true
 			}
+			// one level down: the test extracted into a small predicate (isNilComponent)
+			if cal := c.Common().StaticCallee(); cal != nil && cal != fn && cal.Blocks != nil && len(cal.Blocks) <= 3 {
+				for _, b2 := range cal.Blocks {
+					for _, i2 := range b2.Instrs {
+						if c2, ok := i2.(ssa.CallInstruction); ok {
+							if cal2 := c2.Common().StaticCallee(); cal2 != nil && cal2.Name() == "IsNil" {
+								return true
+							}
+						}
+					}
+				}
+			}
 		}
 	}
 	return false
